@@ -33,6 +33,7 @@ class LoopModel:
         self.ctx = ctx
         self.f = f = ctx.repo.function(fq)
         self.kind = 'feedback' if fq == FB else 'feedforward'
+        ctx.single_exit(f)
         body = f.node.body
         loops = [s for s in body if isinstance(s, ast.While)]
         ctx.need(len(loops) == 1, '%s: expected exactly one top-level while loop, found %d'
